@@ -216,6 +216,15 @@ ReadWith(b, hint, d) ==
 \* the hint a reader that knows the connection passes for p
 TrueHint(p) == IF p.t = "connless" THEN "false" ELSE IF p.token # <<>> THEN "true" ELSE "false"
 
+\* The one value a reader without hint cannot tell apart by construction (the comment in
+\* has_token_heuristic: a 4-byte close payload "might either be a 3-byte reason with nul byte or a 0-byte
+\* reason with a 4-byte token"; resolved by the UTF-8 test): a token-less Close whose reason is three
+\* bytes that are not UTF-8 is written as 04 r1 r2 r3 00 and read back, without hint, as Close("") with
+\* token r1 r2 r3 00.  Every other accepted value must be re-read as itself under hint "none" too.
+DocumentedAmbiguity(p) ==
+  /\ p.t = "ctrl" /\ p.c = "close" /\ p.token = <<>> /\ Len(p.reason) = 3
+  /\ ~Utf8Valid3(p.reason[1], p.reason[2], p.reason[3])
+
 \* warnings a freshly written expressible packet may produce when read back
 \* (the library warns on purpose about a chunk packet that carries nothing)
 AllowedW(p) == IF p.t = "chunks" /\ p.nc = 0 /\ ~p.rr THEN {"ChunksNoChunks"} ELSE {}
